@@ -271,6 +271,55 @@ func rulesC09(c *Ctx) {
 		c.DominatedByCond("C09.nonce", fn, "!IsSimulation", `^!consensus/cometbft/api\.\(\*Context\)\.IsSimulation\(param:ctx\)$`, writes, "simulation never writes")
 		c.DominatedByCond("C09.nonce", fn, "!IsCheckOnly", `^!consensus/cometbft/api\.\(\*Context\)\.IsCheckOnly\(param:ctx\)$`, writes, "CheckTx never writes")
 	}
+	// the nonce lives in the account record: the record is never deleted (a deleted and re-created
+	// account would start again at nonce 0 and every old signed transaction would be valid once more)
+	{
+		nEnc, nRm := 0, 0
+		for _, fn := range c.P.ModFuncs {
+			if fn.Blocks == nil || !strings.HasPrefix(short(fpkgPath(fn)), "consensus/cometbft/apps/") {
+				continue
+			}
+			for _, call := range callsIn(fn) {
+				if calleeName(call) != "common/keyformat.(*KeyFormat).Encode" {
+					continue
+				}
+				if !strings.Contains(vstr(allArgs(call)[0]), "global:consensus/cometbft/apps/staking/state.accountKeyFmt") {
+					continue
+				}
+				nEnc++
+				v := call.Value()
+				seen := map[ssa.Value]bool{}
+				work := []ssa.Value{v}
+				for len(work) > 0 {
+					x := work[len(work)-1]
+					work = work[:len(work)-1]
+					if x == nil || seen[x] || x.Referrers() == nil {
+						continue
+					}
+					seen[x] = true
+					for _, r := range *x.Referrers() {
+						switch y := r.(type) {
+						case ssa.CallInstruction:
+							cn := calleeName(y)
+							if strings.HasSuffix(cn, ".Remove") || strings.HasSuffix(cn, ".RemoveExisting") || strings.HasSuffix(cn, ".Delete") {
+								nRm++
+								c.Fail("C09.nonce", "account record removed<-"+fname(fn), c.P.InstrPos(y), "a staking account record is deleted: its nonce restarts at 0 when the account is used again and old signed transactions become replayable")
+							}
+						case *ssa.Phi:
+							work = append(work, y)
+						case *ssa.ChangeType:
+							work = append(work, y)
+						case *ssa.Convert:
+							work = append(work, y)
+						}
+					}
+				}
+			}
+		}
+		if nRm == 0 {
+			c.Check(nEnc >= 2, "C09.nonce", "account records are never removed", "", itoa(nEnc)+" account keys built, none passed to a removal", "no account key construction found (accountKeyFmt)")
+		}
+	}
 	c.WhoMayStore(ix, "C09.nonce", "staking/api.GeneralAccount.Nonce", []string{fnAuthPay, "consensus/cometbft/apps/staking.(*Application).PostExecuteTx", "staking/api/", "consensus/cometbft/apps/staking/state/interop/", "oasis-node/cmd/", "oasis-test-runner/", "genesis/"}, "the nonce is advanced only by authentication")
 	if fn := c.P.Fn("consensus/cometbft/apps/staking.(*Application).PostExecuteTx"); fn != nil {
 		st := StoresTo(fn, "Nonce=", "staking/api.GeneralAccount.Nonce")
